@@ -37,7 +37,7 @@ def main(tier, seed):
     jobs += [dict(skel=s, backend=b, consistency='StrictlyAtOnce', cfg=dict(eager_div=0)) for s in ['a,X,n,c'] for b in ('fd', 'mmap')]
     bounds = dict(histories='every history a + (<= %d operations from {append, read_next, batch read, clean restart} with >= 1 restart) + drain, entries <= 4 KiB; and skeletons %s (X = clean shutdown and reopen in a fresh process, R = reopen in the same process); sizes and budgets symbolic' % (3 if tier == 'quick' else 4, skels),
                   payload_size='0 .. 32 MiB in multi-operation histories (block spans 1..4 units); every accepted size 0 .. 2^30-256 in the single-append history a,X,n,c', reopens='<= 2 per history', files='<= 3', clock='monotone between runs (clock regression is not modelled yet)',
-                  loop_unrolling='128 iterations (the recovery scan visits up to 100 units per file)', wall_budget_s=300 if tier == 'quick' else 3000)
+                  loop_unrolling='128 iterations (the recovery scan visits up to 100 units per file)', wall_budget_s=600 if tier == 'quick' else 3000)
     return enginecheck.run('C06', tier, seed, jobs, enginecheck.KINDS['C06'], bounds['wall_budget_s'], DIFF, bounds,
                            cfg=dict(oracles=['C01', 'C03', 'C15'], maxloop=128))
 
